@@ -22,7 +22,7 @@
    level-4 table is represented partially (every slot but the recursive one, Paging/RecRefineTop.v),
    the recursive slot is shown untouched.  Partial: RecursivePageTable's clean-up is checked by the
    correspondence, not proved. *)
-From X86 Require Import Paging.Mapped Paging.Tree Paging.TreeProofs Paging.Refine Paging.RefineOps Paging.RefineParent Paging.RefineWalk Paging.RefineHistory Paging.RefineClean Paging.RefineHistoryClean Paging.Recursive Paging.RecResolve Paging.RecRead Paging.RecMap Paging.RecRefineTop Paging.RecRefine Paging.RefineTranslate Paging.RefineFull Paging.TreeClean Paging.Run.
+From X86 Require Import Paging.Mapped Paging.Tree Paging.TreeProofs Paging.Refine Paging.RefineOps Paging.RefineParent Paging.RefineWalk Paging.RefineHistory Paging.RefineClean Paging.RefineHistoryClean Paging.Recursive Paging.RecResolve Paging.RecRead Paging.RecMap Paging.RecRefineTop Paging.RecRefine Paging.RefineTranslate Paging.RecFull Paging.RefineFull Paging.TreeClean Paging.Run.
 Open Scope Z_scope.
 
 (* after ANY history from the empty level-4 table, every index path reaches exactly the leaf the
@@ -349,3 +349,17 @@ Theorem C01_recursive_translate_reads_the_tree : forall s ch va,
   rtranslate s va = Ok (s, t_translate ch va).
 Proof. exact rtranslate_refines. Qed.
 Print Assumptions C01_recursive_translate_reads_the_tree.
+
+(* RecursivePageTable, whole histories WITH clean-ups (pages outside the recursive slot, any
+   clean-up range): the memory model never panics or faults, answers every call as the tree
+   model of the recursive kind does, and ends in memory representing the tree model's tree with
+   its allocator state and released-frame log, recursive slot intact *)
+Theorem C01_recursive_memory_model_equals_tree_model : forall rootf allocs r ops,
+  0 <= r < 512 -> tframe rootf -> sep (init_pstate rootf allocs r) rootf empty_children ->
+  Forall cop_ok2 ops -> Forall (cop_outside r) ops ->
+  exists s' ch',
+    rcmem_run (rinit rootf allocs r) ops = Ok (s', snd (tree_run_k true r (t_init allocs) (map cop_top ops))) /\
+    fst (tree_run_k true r (t_init allocs) (map cop_top ops)) = tst ch' s' (rev (freed s')) /\
+    rInv r s' ch' /\ wf_children ch' /\ faulted s' = false.
+Proof. exact recursive_model_refines_tree_model. Qed.
+Print Assumptions C01_recursive_memory_model_equals_tree_model.
